@@ -1337,5 +1337,5 @@ MANIFEST = {
              "finite tables (operators, productions, handlers) and each is checked exhaustively on the source; semantic actions are abstractly interpreted to key sets.",
     "note": "Trusted: SLY semantics (definition-order matching, precedence), Python operator semantics. 19 unsupported productions and 7 key-flow exceptions are frozen with reasons. "
             "Not decided: values inside generated commands, section options (used by HAB BD files).",
-    "technique": "static analysis: dispatch-table vs reference operator table, regex automata for token literals, abstract interpretation of grammar actions (key flow), routing dataflow, finite-model evaluation of grammar actions (operator table, size suffixes, identifier lookup), whole-function models of the statement handlers (load/program switch, blob split, defaults, key blob selection), regex automata inclusion for quoted literals, documented option names vs handler look-ups, legacy memory name table vs enum labels, FILL word value model (shared with C04)",
+    "technique": "static analysis: dispatch-table vs reference operator table, regex automata for token literals, abstract interpretation of grammar actions (key flow), routing dataflow, finite-model evaluation of grammar actions (operator table, size suffixes, identifier lookup), whole-function models of the statement handlers (load/program switch, blob split, defaults, key blob selection), regex automata inclusion for quoted literals, documented option names vs handler look-ups, legacy memory name table vs enum labels, FILL word value model (shared with C04), grammar actions interpreted on model tokens (blocks accumulate)",
 }
